@@ -109,10 +109,14 @@ pub fn sites(tier: Tier) -> Vec<Site> {
     let dfs = Arc::new(typed::duration_fields());
     // wire -> value -> wire through the full packet codec
     {
-        let mut cases: Vec<(usize, u64)> = vec![];
+        // (field, wire value, variant): variant bit 0 = uncompressed mode, bit 1 = B1 baseline around the field
+        let mut cases: Vec<(usize, u64, u8)> = vec![];
         for (di, d) in dfs.iter().enumerate() {
             for w in wire_values(d.bits, tier) {
-                cases.push((di, w));
+                for v in 0..4u8 {
+                    // the whole 16-bit domain in every variant; 32-bit boundary sets likewise
+                    cases.push((di, w, v));
+                }
             }
         }
         let cases = Arc::new(cases);
@@ -121,17 +125,18 @@ pub fn sites(tier: Tier) -> Vec<Site> {
         sites.push(Site::new("time-wire", n,
             "every time field x {all 65536 wire values (16-bit fields) | boundary set +-2, every byte lane x 256 (32-bit fields; thorough adds every 16-bit pattern in each half)}: decode, check the duration, re-encode",
             move |i, acc| {
-                let (di, w) = cases[i as usize];
+                let (di, w, variant) = cases[i as usize];
                 let d = &dfs[di];
                 acc.eval();
                 let kind = kinds.iter().find(|k| k.name == d.kind).unwrap();
-                let mut vals = baseline(kind, 0);
+                let compressed = variant & 1 == 0;
+                let mut vals = baseline(kind, (variant >> 1) & 1);
                 let fi = kind.fields.iter().position(|f| f.name == d.field).unwrap();
                 vals[fi] = Val::N(w as i64);
-                let frame = spec::ref_encode(kind, &vals, true).unwrap();
-                let label = format!("{}.{} wire {w}", d.kind, d.field);
+                let frame = spec::ref_encode(kind, &vals, compressed).unwrap();
+                let label = format!("{}.{} wire {w} (B{} {})", d.kind, d.field, (variant >> 1) & 1, if compressed { "compressed" } else { "uncompressed" });
                 let replay = json!({"site": "time-wire", "index": i, "case": label});
-                let codec = Codec::new(Mode::Compressed);
+                let codec = Codec::new(if compressed { Mode::Compressed } else { Mode::Uncompressed });
                 let mut buf = BytesMut::from(&frame[..]);
                 let p = match guard(|| codec.decode(&mut buf)) {
                     Ok(Ok(Some(p))) => p,
